@@ -20,7 +20,7 @@ LEVEL_RULE = (
 EXHAUSTIVE_SUBDOMAINS = ["atmos on the 10 m altitude grid over [-500, 20000] m"]
 ASSUMPTIONS = ["'tabulated ISA' = analytic hydrostatic ISA with g0, R, lapse rate -6.5 K/km, isothermal above 11 km",
                "round-trip tolerance 1e-8 relative (double precision through two pow() calls)"]
-REQUIRED = ["arrays_of_more_than_4M_rows", "atmos_grid", "tropopause", "roundtrip", "monotone", "sea_level", "ordering", "distance_uniform",
+REQUIRED = ["arrays_of_more_than_4M_rows", "array_with_a_missing_row", "atmos_grid", "tropopause", "roundtrip", "monotone", "sea_level", "ordering", "distance_uniform",
             "distance_antipodal", "distance_identical", "distance_cardinal", "distance_with_H", "recall_after_in_place_edit", "narrow_integer_dtypes", "non_contiguous_layouts", "bearing", "array_equals_scalar", "types"]
 
 
@@ -58,6 +58,24 @@ def m_atmos(ctx, case):
             ctx.hit("array_equals_scalar")
         ctx.nontrivial(("atm", H))
     ctx.hit("atmos_grid")
+    # a table with a MISSING row (NaN where a decoder returned None): the other rows are what they are without it - an
+    # array-wide reduction in a gate (np.max / np.any / np.all) must not let one row decide for the others
+    if arr[0] == "ok" and len(Hs) >= 2:
+        for pos in (0, len(Hs) // 2, len(Hs) - 1):
+            Hn = np.array(Hs, dtype=float)
+            Hn[pos] = np.nan
+            with np.errstate(all="ignore"):
+                rn = call(aero.atmos, Hn)
+            ctx.ev()
+            ok_ = rn[0] == "ok"
+            if ok_:
+                for x_full, x_nan in zip(arr[1], rn[1]):
+                    keep = np.arange(len(Hs)) != pos
+                    ok_ = ok_ and np.shape(x_nan) == (len(Hs),) and np.allclose(np.asarray(x_nan)[keep], np.asarray(x_full)[keep], rtol=1e-12, atol=0)
+            if not ok_:
+                ctx.violation("rows-next-to-a-missing-row-change", fn="atmos", H=[h_ for h_ in Hs][:6], nan_at=pos, observed=repr(rn[1:])[:160])
+                break
+        ctx.hit("array_with_a_missing_row")
     # vsound
     for H in Hs[:3]:
         r = call(aero.vsound, H)
